@@ -544,3 +544,28 @@ def verify_lemma(registry, lem, second=False):
     rec['assumptions'] = sorted(eng.assumptions)
     rec['wall_s'] = round(time.time() - t0, 3)
     return rec
+
+
+def verify_custom(registry, name, second=False):
+    t0 = time.time()
+    prop, gen, note = registry.customs[name]
+    eng = Engine(registry)
+    rec = {'lemma': name, 'prop': prop, 'obligations': [], 'error': None, 'undecided': None, 'note': note}
+    try:
+        obls = gen(eng)
+    except Unsupported as ex:
+        rec['undecided'] = f'unsupported: {ex}'
+        return rec
+    except Exception:
+        rec['error'] = traceback.format_exc()
+        return rec
+    for o in obls:
+        r = discharge(o, second)
+        item = {'name': f'{prop}/{name}/{o.name}', 'kind': o.kind, 'status': r['status'], 'backend': r['backend'], 'time_s': r['time_s'],
+                'note': o.note, 'size': sum(len(str(x)) for x in o.pc) + len(str(o.goal))}
+        if r['status'] == 'sat':
+            item['model'] = str(r['model'])[:2000]
+        rec['obligations'].append(item)
+    rec['assumptions'] = sorted(eng.assumptions)
+    rec['wall_s'] = round(time.time() - t0, 3)
+    return rec
